@@ -67,6 +67,8 @@ class KernelDiff:
             out64 = out.astype(np.uint64)
         elif out.dtype.kind in "iu":
             out64 = to_u64(out)
+        elif out.dtype.kind == "f":
+            out64 = np.ascontiguousarray(out.astype(np.float64)).view(np.uint64)
         else:
             raise TypeError(f"{name}: non-integer output dtype {out.dtype}")
         signed = np.dtype(dtype).kind == "i" if dtype != "pyint" else True
